@@ -6,6 +6,14 @@ ROOT = os.path.dirname(os.path.dirname(os.path.abspath(__file__)))
 
 # id -> (level category, level text, level note, technique, design ref)
 CHECKS = {
+ "C09": ("exploration",
+   "The real Scope runs next to a naive set model for every subset (512 quick / 4096 thorough) of a small universe of triples chosen around the representation's seams (catalog sentinel, empty names, unknown actions, opaque words), three constructions each, and for every ordered pair of subsets (2.6e5 / 1.7e7) for Equal/Contains/Union/text preservation, plus random sets over arbitrary field bytes. Exhaustive over the small universe; sampling beyond it.",
+   "Trusted: the bitmask/map set model in cmd/c09. Round-trip is asserted only on the domain where text can represent the triple.",
+   "runtime monitor: reference set model compared online over an enumerated small universe + random sets", "3/C09"),
+ "C17": ("exploration",
+   "All exported ociref functions are run on every string of length <=3 over a 20-symbol alphabet, on 2e5 (quick) / 2e7 (thorough) grammar-directed, mutated and random strings and on valid parts printed back; an independent hand-written recogniser decides acceptance, the split and every predicate, and a sample is pushed through ociserver's router over a recording backend to compare routing decisions with the predicates.",
+   "Trusted: the hand-written grammar transcription in internal/gram (it agreed with the library on every input except the recorded defect). Digest validity assumes the sha2 family linked into the binary.",
+   "runtime monitor: differential against an independent grammar transcription + recording backend behind the router", "3/C17"),
  "C20": ("exploration",
    "Every set/unset assignment of the 18 function fields (all 2^18 in thorough, boundary+20k random in quick) x every method x {default, custom NewError} plus the nil table is executed against recording stubs; delegation and clean refusal are judged per call. The space is finite and enumerated completely in thorough, which is as much as running the code can give.",
    "Trusted: the harness stubs and reflect.DeepEqual. Argument values are one PRNG-free family per call, not all values.",
